@@ -17,7 +17,7 @@ SHARDS = {"quick": 8, "thorough": 16}
 RULE = ("a settable state (power, mode 1..6, setpoint 13.0..43.5 step 0.5, fan 0..127, swing, eco, turbo, sleep, Fahrenheit, "
         "freeze protection, follow-me, purifier, target humidity 0..127, aux mode, beep) is written through AirConditioner "
         "setters + apply() to a model device whose 0x40 decoder follows the vendor Lua layout (and through SetStateCommand "
-        "directly for all 16 raw swing nibbles), on a fresh client or after get_capabilities() against two capability profiles (one without custom fan speeds); the decoded body must equal the request field by field, vendor-fixed constants must "
+        "directly for all 16 raw swing nibbles), on a fresh client or after get_capabilities() against two capability profiles (one without custom fan speeds), with or without property-protocol settings pending in the same apply(); the decoded body must equal the request field by field, vendor-fixed constants must "
         "hold (0x40, mobile-client bit, timers off, swing high bits 0x30, undefined bits clear), and no two different states may "
         "share a body. Per-field exhaustive sweeps (62 setpoints x 6 modes, 128 fan bytes, humidity 0..127, flags sharing a "
         "byte in all combinations) over two backgrounds, a greedy pairwise covering array, and Hypothesis random states. "
@@ -30,7 +30,7 @@ BASE = {"power": False, "mode": 2, "target": 24.0, "fan": 102, "swing": 0, "eco"
 FLAGS = ["power", "beep", "follow_me", "turbo", "eco", "purifier", "sleep", "fahrenheit", "freeze"]
 
 
-def _apply_and_get_body(s: dict, via: str, caps_profile=None):
+def _apply_and_get_body(s: dict, via: str, caps_profile=None, case_propset=0):
     """Returns (body bytes, model state, rejected list)."""
     from msmart.device import AirConditioner as AC
     from msmart.device.AC.command import SetStateCommand
@@ -71,6 +71,14 @@ def _apply_and_get_body(s: dict, via: str, caps_profile=None):
             if caps_profile == "caps0+refresh":
                 await ac.refresh()
         acutil.set_attrs(ac, s)
+        if case_propset:
+            # settings carried by the property protocol changed since the last apply (they travel in a second command)
+            dev.ac.props.update({0x0009: b"\x00", 0x000A: b"\x00", 0x0048: b"\x64", 0x00E3: bytes(12), 0x0043: b"\x01", 0x0042: b"\x01", 0x0018: b"\x00"})
+            ac.vertical_swing_angle = AC.SwingAngle.POS_3
+            if case_propset > 1:
+                ac.ieco = True
+                ac.rate_select = AC.RateSelect.LEVEL_3
+                ac.breezeless = True
         await ac.apply()
         res["m"] = dev.ac
         ac._lan._disconnect()
@@ -86,7 +94,7 @@ _SEEN: dict = {}
 def check_case(case: dict):
     s = case["state"]
     via = case.get("via", "device")
-    body, state, rejected = _apply_and_get_body(s, via, case.get("caps"))
+    body, state, rejected = _apply_and_get_body(s, via, case.get("caps"), case.get("propset", 0))
     if rejected:
         return ("rejected", f"model device rejected the command: {rejected[0][1]}")
     if body is None:
@@ -126,7 +134,7 @@ def replay(ctx, case):
 def _run_one(ctx, case):
     s = case["state"]
     nt = s != BASE
-    ctx.case(hash((tuple(sorted(s.items())), case.get("via", "device"), case.get("caps"))), nt, cls=case.get("cls", "state") + "/" + case.get("via", "device"))
+    ctx.case(hash((tuple(sorted(s.items())), case.get("via", "device"), case.get("caps"), case.get("propset", 0))), nt, cls=case.get("cls", "state") + "/" + case.get("via", "device"))
     if case.get("caps") and case.get("via", "device") == "device":
         ctx.label("after get_capabilities (" + case["caps"] + ")")
     ctx.sample(case.get("cls", "state"), case)
@@ -197,6 +205,8 @@ def run(ctx) -> None:
                 case = dict(case, via="command")
             elif "via" not in case and i % 5 in (1, 3):
                 case = dict(case, caps=["caps0", "caps1", "caps0+refresh"][(i // 5) % 3])
+            elif "via" not in case and i % 5 == 2:
+                case = dict(case, propset=1 + (i // 5) % 2)
             ctx.check(case, lambda c: _run_one(ctx, c))
     ctx.sweep("per-field exhaustive sweeps x 2 backgrounds + flag combinations + pairwise array", len(cases), True)
 
@@ -204,5 +214,5 @@ def run(ctx) -> None:
     wide = st.fixed_dictionaries({"state": st.one_of(full, full.flatmap(lambda s: st.integers(0, 127).map(lambda f: dict(s, fan=f))),
                                                      full.flatmap(lambda s: st.integers(0, 127).map(lambda h: dict(s, humidity=h)))),
                                   "via": st.sampled_from(["device", "device", "command"]), "cls": st.just("random"),
-                                  "caps": st.sampled_from([None, "caps0", "caps1", "caps0+refresh"])})
+                                  "caps": st.sampled_from([None, "caps0", "caps1", "caps0+refresh"]), "propset": st.sampled_from([0, 0, 1, 2])})
     ctx.hyp("random", wide, lambda c: _run_one(ctx, c), ctx.n(2500, 320000))
